@@ -648,7 +648,8 @@ pub fn run_c15(ctx: &Ctx, keys: &[TKey], k: usize, thread_counts: &[usize], roun
 	if ctx.replay.as_ref().map_or(true, |r| r.workload == "reported-params") {
 		reported_params_directed(ctx, keys, &iss);
 	}
-	if ctx.replay.as_ref().map_or(true, |r| r.workload == "csr-reimport") {
+	// (importing a request verifies its signature through ring's C code: not under Miri)
+	if !cfg!(miri) && ctx.replay.as_ref().map_or(true, |r| r.workload == "csr-reimport") {
 		csr_reimport_directed(ctx, keys, &iss);
 	}
 	let tab = table(ctx.seed, k, keys.len(), portable_only);
